@@ -51,9 +51,47 @@ def run(ctx):
         else:
             bump('tree-differs')
             ctx.fail('oracle', c, impl=f.get('tree', '')[:400], model=rr[:400], expect=rr[3:][:400], note=f'parse tree differs from the tree the operator table dictates: {src!r}')
+    # side-effect blocks are outside the reference grammar, but the body of a block is an expression like any other: the
+    # subtree the parser builds under the SideEffect node of `[E]` and of `7 [E]` must be the tree the table dictates for E
+    if not ctx.replay:
+        import re
+        def shift(tree, k):
+            return re.sub(r'\((\w+) (\d+)', lambda m: f'({m.group(1)} {int(m.group(2)) + k}', tree)
+        T = lambda ty, tx: f'{ty},{vlib.esc(tx)}'
+        inref = [c for c in cases if ref.get(c[1], '').startswith('ok ') and res[c[1]]['parse'].startswith('ok root=')]
+        if ctx.tier == 'quick':
+            inref = inref[::3]
+        # only complete expressions: those the builder accepts on their own (an expression ending in an operator that still
+        # waits for an operand, like `a \`f\``, parses but is not a program)
+        bres = treesuite.run_pipeline(inref, 'c02b', stores=('simple',))
+        inref = [c for c in inref if bres[c[1]]['build'].get('simple', '').startswith('ok ')]
+        # a separator (blank line) at the very start or end of a program is dropped; inside a block it is not at the start of
+        # the program, so such expressions are not wrapped
+        def edge_sep(c):
+            tys = [t.split(',', 1)[0] for t in c[2:] if t.split(',', 1)[0] not in ('Whitespace', 'Annotation', 'LineAnnotation')]
+            return not tys or tys[0] == 'Subexpression' or tys[-1] == 'Subexpression'
+        inref = [c for c in inref if not edge_sep(c)]
+        wrapped = []
+        for c in inref:
+            wrapped.append((c, 1, ['PARSE', 'w1.' + c[1], T('StartSideEffect', '[')] + c[2:] + [T('EndSideEffect', ']')], '(SideEffect 0 - %s)'))
+            wrapped.append((c, 3, ['PARSE', 'w3.' + c[1], T('Number', '7'), T('Whitespace', ' '), T('StartSideEffect', '[')] + c[2:] + [T('EndSideEffect', ']')], '(Number 0 - (SideEffect 2 - %s))'))
+        wcases = [w[2] for w in wrapped]
+        wres = treesuite.run_pipeline(wcases, 'c02w', stores=())
+        wchk = treesuite.treechk(wcases, wres, 'c02w')
+        for c, k, w, shape in wrapped:
+            want = shape % shift(ref[c[1]][3:], k)
+            got = (wchk.get(w[1]) or {}).get('tree')
+            p = wres[w[1]]['parse']
+            stats['block-body'] = stats.get('block-body', 0) + 1
+            ctx.distinct.add('\t'.join(w[2:]))
+            if not p.startswith('ok root='):
+                ctx.fail('oracle', w, impl=p[:200], model=None, expect=want[:300], note=f'an expression the parser accepts is rejected as the body of a side-effect block: {treesuite.tok_text(w)!r}')
+            elif got != want:
+                ctx.fail('oracle', w, impl=(got or p)[:400], model=None, expect=want[:400], note=f'the body of a side-effect block is not parsed to the tree the operator table dictates for it: {treesuite.tok_text(w)!r}')
+        ctx.evaluations += len(wcases)
     ctx.oblige('suite PARSE.tree (implementation = Lean parser model)', 'suite', dis == 0, f'{dis} disagreement(s)')
     ctx.rule = ('token-list cases: every ordered pair (quick) and triple (thorough) of operator token types — binary, prefix, suffix, implicit space list, comma list, conditional and apply forms — around atoms with and without whitespace tokens, and random deeper expressions with groups, nested expressions and separators; '
-                'the implementation`s node array is converted by the verified toTree and compared with refParse (precedence climbing over the LANGUAGE table, proved PrecOK for every accepted input); distinct = distinct token lists inside the reference grammar.')
+                'the implementation`s node array is converted by the verified toTree and compared with refParse (precedence climbing over the LANGUAGE table, proved PrecOK for every accepted input); the same expressions wrapped as the body of a side-effect block (`[E]`, `7 [E]`) must give the same subtree under the SideEffect node; distinct = distinct token lists inside the reference grammar.')
     ctx.suites = {'PARSE+TREECHK+REFPARSE': len(cases), 'outcomes': stats}
     for c in cases[:: max(1, len(cases) // 6)][:6]:
         ctx.sample({'tokens': treesuite.tok_text(c), 'impl_tree': (chk.get(c[1]) or {}).get('tree', '')[:200], 'reference': ref.get(c[1], '')[:200]}, cap=80)
